@@ -86,6 +86,11 @@ func TestWorker(t *testing.T) {
 		} else {
 			plan = prof.Gen(RunSeed(base, prop, r), tier)
 		}
+		if cur := os.Getenv("VERIF_OUT"); cur != "" {
+			// remember the plan being run: if a goroutine of the code under test panics, the process dies with it
+			pb, _ := json.Marshal(plan)
+			_ = os.WriteFile(cur+".current", pb, 0644)
+		}
 		res := RunPlan(t, plan)
 		full := verbose || len(res.Viol) > 0 || res.Harness != "" || r%50 == 0
 		if full {
